@@ -99,6 +99,36 @@ def sql_setitem_replaces_metadata(ctx, R, rule_id):
             "__setitem__ never deletes the previous metadata rows of the name: old tags survive an overwrite")
 
 
+def config_env_value_stored_as_converted(ctx, R, rule_id, items):
+    """obligation: Configuration.reset stores the value read from a PYRO_* environment variable as converted - not through `value or default` or another test of its
+    truthiness: 0, 0.0 and False are legal settings (ITER_STREAM_LINGER=0, MAX_RETRIES=0, ITER_STREAMING=off ...)"""
+    rs = ctx.fn("Pyro5.configure.Configuration.reset")
+    sets = [c for c in walk_no_nested(rs.node) if isinstance(c, ast.Call) and isinstance(c.func, ast.Name) and c.func.id == "setattr" and len(c.args) == 3]
+    env_sets = []
+    for c in sets:
+        v = c.args[2]
+        names = {n.id for n in ast.walk(v) if isinstance(n, ast.Name)}
+        # the value derives from os.environ (a local assigned from environ[...] / environ.get and then converted)
+        derived = set()
+        changed = True
+        while changed:
+            changed = False
+            for st, t, k in stores_in(rs.node):
+                src = st.value if k == "assign" else (st.iter if k == "for" else None)
+                if src is not None and isinstance(t, ast.Name) and t.id not in derived and \
+                        ("environ" in unparse(src, 400) or {n.id for n in ast.walk(src) if isinstance(n, ast.Name)} & derived):
+                    derived.add(t.id)
+                    changed = True
+        if names & derived:
+            env_sets.append((c, v))
+    if not env_sets:
+        raise AnalysisError("Configuration.reset: the setattr that stores an environment value vanished")
+    bad = [(c, v) for c, v in env_sets if not isinstance(v, ast.Name)]
+    R.check(not bad, rule_id, "Configuration.reset|environment-value-stored-as-converted", "a PYRO_* environment setting is stored exactly as converted (falsy values are settings too): %s" % items,
+            rs.loc(bad[0][0]) if bad else rs.loc(env_sets[0][0]),
+            ("`%s` does not store the converted environment value itself: a setting of 0 / off from the environment is replaced by the default" % unparse(bad[0][0], 80)) if bad else "")
+
+
 def classname_defs(fn_node):
     """assignments `name = <expr containing data.get("__class__", ...) or data["__class__"]>` (the class tag may be passed through a decoding helper)"""
     out = []
